@@ -617,3 +617,212 @@ def gen_query(rng, SET, mode=None):
         k = 1 if q["ft_form"] == "str" else rng.choice([1, 2, 2, 3])
         q["ft"] = sorted(rng.sample(TYPES + ["absent_type"], k))
     return q
+
+
+# -- workload classes added in round 5 ------------------------------------------------------------------------------------
+# (a) rows REWRITTEN after the import with other coordinates (merge_strategy='replace', add_relation(parent_func/child_func))
+SHIFTS = [m * 2 ** 17 for m in (1, 1, 2, 7, 8, 9, 64)] + [2 ** 20, 2 ** 23, 2 ** 26]
+
+
+def bin_key(a, b):
+    """(level, index) of the smallest bin of the scheme that contains [a, b]; "out" beyond the scheme."""
+    if not (1 <= a <= b <= LIMIT):
+        return "out"
+    k = S.smallest_level_containing(a, b)
+    return (k, (a - 1) >> (17 + 3 * k))
+
+
+def moved_coords(rng, a, b):
+    """Other coordinates for a stored feature [a, b]: shifted across multiples of 2^17 and of the coarser bin sizes, grown
+    into a coarser bin, shrunk into a finer one, put on / across a bin end of any level, across 2^29 (12%: a move inside the
+    same bin)."""
+    if a > b:
+        a, b = b, a
+    ln = b - a
+    r = rng.random()
+    if r < 0.34:
+        d = rng.choice(SHIFTS) * rng.choice([1, 1, -1])
+        if a + d < 1:
+            d = -d
+        na, nb = a + d, b + d
+    elif r < 0.46:
+        na, nb = a, a + rng.choice([2 ** 17, 2 ** 18 + 5, 2 ** 20, 2 ** 23 + 77, 2 ** 26])         # grows into a coarser bin
+    elif r < 0.58:
+        na = a + rng.choice([0, 0, 1, 2 ** 17, 2 ** 20])
+        nb = na + rng.choice([0, 1, 30, 999])                                                 # shrinks into a finer bin
+    elif r < 0.78:
+        k = rng.choice([0, 0, 1, 1, 2, 3, 4])
+        B = S.size(k) * rng.randrange(1, S.NBINS[k] + 1)                                       # last base of a level-k bin
+        ln2 = min(ln, 5000) if rng.random() < 0.5 else rng.choice([0, 1, 500, 2 ** 17])
+        form = rng.randrange(4)
+        if form == 0:
+            na, nb = B - ln2, B
+        elif form == 1:
+            na, nb = B + 1, B + 1 + ln2
+        elif form == 2:
+            na, nb = B - ln2, B + 1
+        else:
+            na, nb = B - S.size(k) + 1, B
+    elif r < 0.88:
+        na = LIMIT + rng.choice([-2 ** 17, -5, -1, 0, 1, 2 ** 17])
+        nb = na + rng.choice([0, 3, 1000, 2 ** 17])
+    else:
+        d = rng.choice([1, 1, 2, -1])
+        na, nb = a + d, b + d                                                                  # (control) the same bin, mostly
+    na = max(1, na)
+    return na, max(na, nb)
+
+
+def make_rewrite(seed, SET):
+    """How the rows of the database made from SET are rewritten after (or during) the import, and what the file should hold
+    afterwards.  -> {"mode", "steps": [...], "final": model features, "old": {id: [start, end]} of every rewritten row}
+
+    mode "create":  ONE create_db(merge_strategy='replace') over the original lines followed by lines that repeat an ID with
+                    other coordinates (some IDs twice: the last line counts);
+         "update":  create_db over the original lines, then 1-2 update(..., merge_strategy='replace') calls with such lines;
+         "relation": create_db, then add_relation(parent, child, 1, parent_func=..., child_func=...) calls whose functions
+                    set other coordinates on the parent, the child or both;
+         "update+relation": both.
+    step = {"how": "replace", "feats": [model features]} | {"how": "relation", "parent", "child", "to": {id: [start, end]},
+            "as_object": bool}"""
+    rng = random.Random(seed * 49979687 + 3)
+    mode = rng.choice(["create", "create", "update", "update", "relation", "relation", "update+relation"])
+    cur = {f["id"]: dict(f, parents=list(f["parents"])) for f in SET["features"]}
+    order = [f["id"] for f in SET["features"]]
+    hubs = list(SET["hubs"])
+    old = {}
+    steps = []
+
+    def replacement(f):
+        a, b = moved_coords(rng, f["start"], f["end"])
+        g = dict(f, start=a, end=b, parents=list(f["parents"]))
+        if rng.random() < 0.1:
+            g["seqid"] = rng.choice(SET["seqids"])
+        if rng.random() < 0.1:
+            g["strand"] = rng.choice(STRANDS)
+        if g["id"] not in hubs and rng.random() < 0.15:
+            g["parents"] = sorted(rng.sample(hubs, rng.choice([1, 2]))) if rng.random() < 0.8 else []
+        return g
+
+    def replace_step():
+        ids = rng.sample(order, max(3, int(len(order) * rng.uniform(0.2, 0.4))))
+        feats = []
+        for i in ids:
+            g = replacement(cur[i])
+            old.setdefault(i, [cur[i]["start"], cur[i]["end"]])
+            feats.append(g)
+            cur[i] = g
+            if rng.random() < 0.15:
+                g2 = replacement(g)          # the same ID once more, further down: the last line counts
+                feats.append(g2)
+                cur[i] = g2
+        steps.append({"how": "replace", "feats": feats})
+
+    def relation_steps():
+        for _ in range(rng.randrange(6, 16)):
+            p = rng.choice(hubs) if rng.random() < 0.8 else rng.choice(order)
+            kids = [i for i in order if i not in hubs and i != p and p not in cur[i]["parents"]]
+            if not kids:
+                continue
+            c = rng.choice(kids)
+            to = {}
+            for who in {"parent": [p], "child": [c], "both": [p, c]}[rng.choice(["parent", "child", "child", "both"])]:
+                a, b = moved_coords(rng, cur[who]["start"], cur[who]["end"])
+                to[who] = [a, b]
+                old.setdefault(who, [cur[who]["start"], cur[who]["end"]])
+                cur[who] = dict(cur[who], start=a, end=b)
+            cur[c] = dict(cur[c], parents=sorted(cur[c]["parents"] + [p]))
+            steps.append({"how": "relation", "parent": p, "child": c, "to": to, "as_object": rng.random() < 0.5})
+
+    if mode in ("create", "update", "update+relation"):
+        for _ in range(1 if mode == "create" else rng.choice([1, 1, 2])):
+            replace_step()
+    if mode in ("relation", "update+relation"):
+        relation_steps()
+    return {"mode": mode, "steps": steps, "final": [cur[i] for i in order], "old": old}
+
+
+# (b) files that carry DIRECTIVES, in particular '##sequence-region <seqid> <start> <end>' lines for the queried seqids
+OTHER_DIRECTIVES = ["##species https://www.ncbi.nlm.nih.gov/Taxonomy/Browser/wwwtax.cgi?id=9606", "##genome-build gv GV1.0",
+                    "##feature-ontology so.obo", "##attribute-ontology gv-attr.obo", "##source-ontology gv-src.obo"]
+
+
+def make_directives(seed, SET):
+    """The text of SET with directive lines: '##gff-version 3' first, '##sequence-region <seqid> <start> <end>' for most of
+    the stored seqids - the declared end being a middle one of the feature ends on that seqid (features reach beyond it: a
+    circular genome, a stale directive), a multiple of 2^17 below such an end, just below the largest end, or (20%) at / beyond
+    every feature -, for seqids no feature has (also spellings that differ in letter case only) and, now and then, a second
+    line for the same seqid; other '##' directives; most lines at the top, some right before the first feature of their seqid.
+    -> {"text", "declared": {seqid: smallest declared end}, "lines": number of sequence-region lines, "others": number of
+        sequence-region lines naming a seqid without features}"""
+    rng = random.Random(seed * 86028121 + 17)
+    feats = SET["features"]
+    top, inline = ["##gff-version 3"], {}
+    declared, n_lines, others = {}, 0, 0
+    stored = sorted({f["seqid"] for f in feats})
+    for s in stored:
+        if rng.random() < 0.12:
+            continue
+        ends = sorted(max(f["start"], f["end"]) for f in feats if f["seqid"] == s)
+        for _ in range(2 if rng.random() < 0.12 else 1):
+            r = rng.random()
+            if r < 0.45:
+                E = ends[int(len(ends) * rng.uniform(0.3, 0.7))]
+            elif r < 0.65:
+                E = ends[int(len(ends) * rng.uniform(0.3, 0.8))]
+                E = (E >> 17) << 17 if E >= 2 ** 17 else E
+            elif r < 0.8:
+                E = ends[-1] - rng.choice([1, 1000, 2 ** 17])
+            else:
+                E = ends[-1] + rng.choice([0, 0, 1000])
+            E = max(1, E)
+            line = "##sequence-region %s %d %d" % (s, 1 if rng.random() < 0.85 else rng.choice([1, 2, 100]), E)
+            declared[s] = min(E, declared.get(s, E))
+            n_lines += 1
+            if rng.random() < 0.3:
+                inline.setdefault(s, []).append(line)
+            else:
+                top.append(line)
+    for s in rng.sample(["chrOther_9", "ctgZ", "MT"] + [x.swapcase() for x in stored if x.swapcase() != x], rng.choice([1, 2, 3])):
+        line = "##sequence-region %s 1 %d" % (s, rng.choice([1000, 16569, 2 ** 17, 50000]))
+        if s in stored:
+            declared[s] = min(int(line.split()[-1]), declared.get(s, LIMIT * 4))
+        else:
+            others += 1
+        n_lines += 1
+        top.append(line)
+    extra = rng.sample(OTHER_DIRECTIVES, rng.choice([0, 1, 2]))
+    head = top[:1] + sorted(top[1:] + extra, key=lambda _: rng.random())
+    out, seen = list(head), set()
+    for f in feats:
+        if f["seqid"] not in seen:
+            seen.add(f["seqid"])
+            out.extend(inline.get(f["seqid"], []))
+        out.append(line_of(f))
+    return {"text": "\n".join(out) + "\n", "declared": declared, "lines": n_lines, "others": others}
+
+
+def _declared_interval(rng, SET, pool, within, seqid):
+    """A query interval whose end lies beyond the end that a ##sequence-region line declares for the queried seqid, placed
+    on a stored feature that reaches beyond that end."""
+    E = (SET.get("declared") or {}).get(seqid)
+    if E is None:
+        return _interval(rng, SET, pool, within)
+    ok = [f for f in pool if f["start"] <= f["end"]]
+    over_end = [f for f in ok if f["end"] > E]
+    over_start = [f for f in ok if f["start"] > E]
+    r = rng.random()
+    if within and over_end:
+        f = rng.choice(over_end)
+        b = f["end"] + rng.choice([0, 0, 0, 1, 1000])
+        a = f["start"] + rng.choice([-1, 0, 0]) if r < 0.6 else 1 if r < 0.8 else _value(rng, SET, hi=f["start"])
+    elif not within and over_start:
+        f = rng.choice(over_start)
+        b = f["start"] + rng.choice([0, 0, 1, f["end"] - f["start"]])
+        a = max(1, E - rng.choice([0, 1, 1000])) if r < 0.4 else 1 if r < 0.6 else f["start"] - rng.choice([0, 1, 5]) if r < 0.8 \
+            else _value(rng, SET, hi=b)
+    else:
+        b = E + rng.choice([1, 2, 1000, 2 ** 17, 2 ** 26])
+        a = 1 if r < 0.3 else max(1, E - rng.choice([0, 1, 1000, 2 ** 17])) if r < 0.7 else _value(rng, SET, hi=b)
+    a, b = max(1, a), max(1, b)
+    return (a, b) if a <= b else (b, a)
